@@ -16,7 +16,13 @@ pub fn plan(tier: &str, seed: u64) -> Vec<Batch> {
     let n_batches = if tier == "thorough" { 600 } else if tier == "dev" { 2 } else { 60 };
     let mut v = Vec::new();
     for i in 0..n_batches {
-        for uni in [UniCfg::k(), UniCfg::e()] {
+        // every sixth batch runs in a mount namespace without any /proc (the library brings its own
+        // procfs; the kernel's answers must come through unchanged there as well)
+        let absent = i % 6 == 5;
+        for mut uni in [UniCfg::k(), UniCfg::e()] {
+            if absent {
+                uni.proc_opts = "absent".into();
+            }
             v.push(Batch {
                 check: "C01".into(),
                 phase: "quiescent".into(),
